@@ -436,7 +436,10 @@ def judge_validators(ctx, t):
 VI_ATOMS = ['1', '-2.5', '1*10^400', '“文”', '真', '空', '【1，2】', '【A = 1】', '【=】', 'Y', '其Y', '其', '此', '（显示：1）', '（显示）',
             '（取随机数）', '（未定：1）', '（新建异常：“x”）', '（新建异常）', '（新建数值：1）', '（新建未定）', '以1（加：2）',
             '以“a”（拼接：1）', '以【】（右移）', '【1】#1', '【1】#9', '【A=1】#A', '【A=1】#“B”', '1#1', '“a”之长度', '空之长度',
-            '1 / 0', '1 + “a”', '真 且 1', '1 为 1', '{1 + 2} * 3', '数值', '异常', '显示', '【1，【2，【3】】】', '【A=【B=空】】']
+            '1 / 0', '1 + “a”', '真 且 1', '1 为 1', '{1 + 2} * 3', '数值', '异常', '显示', '【1，【2，【3】】】', '【A=【B=空】】',
+            # names bound INSIDE the text (得到) and then used in every position a name can stand in
+            '（显示：1）得到乙', '以1（加：2）得到乙', '（取随机数）得到丙', '（乙）', '（乙：1）', '（丙：乙）', '以乙（加：1）', '乙#1', '乙之长度', '（新建乙）', '乙',
+            '（X）', '（Y：1）', '以X（后增：1）', '（新建X）']
 VI_JUNK = list('=＝：，、（）【】{}“”！？#之其令设为恒为如果每当输出定义如何新建抛出拦截 \n\t“1aＡ')
 
 
@@ -444,7 +447,7 @@ def varinput_cases(ctx):
     rng = ctx.rng
     texts = ['', ' ', '\n', 'X = 1', 'X = 1\nY = 2', 'X 设为 1', 'X = Y', 'X = 其Y', 'X', '1 = 1', 'X = 1 = 2', 'X =', '= 1',
              'X = 1；Y = X', 'X = 1\nY = X', '令X = 1', '令X设为1', '输出 1', '如果真：\n    X = 1', '定义甲：\n    其a设为1', '如何f？\n    输出 1',
-             'X = （f）', '拦截异常：\n    X = 1', 'X = 1\n拦截异常：\n    输出 1', '【1】#1 = 2', 'X之a = 1', '抛出异常：“x”！', '导入《@JSON》\nX = 1',
+             'X = （f）', '甲 = （显示：1）得到乙\n丙 = （乙）', '甲 = （显示：1）得到乙\n丙 = 以乙（加：1）', 'X = 1\nY = （X）', '拦截异常：\n    X = 1', 'X = 1\n拦截异常：\n    输出 1', '【1】#1 = 2', 'X之a = 1', '抛出异常：“x”！', '导入《@JSON》\nX = 1',
              '输入A\nX = A', 'X = `U+D800`', 'X = “\\', 'X = 【', '）', '为', 'X = 1*^', '﻿X = 1', 'X = 1\r\nY = 2\r\n']
     for a in VI_ATOMS:
         texts.append('X = ' + a)
